@@ -10,6 +10,7 @@ import (
 	"time"
 
 	"github.com/anishathalye/porcupine"
+	"github.com/spf13/afero"
 )
 
 type histEntry struct {
@@ -121,8 +122,42 @@ func init() {
 		Assumptions: []string{"reads are whole-file single-call reads while finding KF6 (partially read handle keeps the drive) is open", "porcupine 'Unknown' verdicts are inconclusive and counted"},
 		Gen: func(r *rand.Rand, tier string, relax Relax) *Case {
 			c := &Case{Cfg: GenConfig(r, 0.7), P: map[string]int64{}, S: map[string]string{}}
+			c.P["stick"] = int64(r.IntN(100))
+			c.P["yield"] = int64([]int{0, 0, 5, 20, 50}[r.IntN(5)])
 			c.Progs = genClientPrograms(r, relax)
-			if r.Float64() < 0.3 {
+			if t := r.Float64(); t < 0.12 {
+				// readers template: several callers read existing files through their own
+				// handles at the same time (restore goroutines overlap), one caller writes
+				c.Ops = append(c.Ops, Op{K: "mkdir", P: "/s", M: 0o755}, Op{K: "writefile", P: "/t", D: &Data{Len: 3000, Kind: "text", Tag: 0x7779}},
+					Op{K: "writefile", P: "/s/f", D: &Data{Len: 700, Kind: "rand", Tag: 0x777a}})
+				var ps [][]Op
+				for ci := 0; ci < 2+r.IntN(3); ci++ {
+					var ops []Op
+					for k := 0; k < 1+r.IntN(2); k++ {
+						h := ci*100 + k + 1
+						ops = append(ops, Op{K: "open", P: []string{"/t", "/s/f"}[r.IntN(2)], H: h}, Op{K: "h.read", H: h, N: 1 << 16}, Op{K: "h.close", H: h})
+					}
+					ps = append(ps, ops)
+				}
+				if r.IntN(2) == 0 {
+					ps = append(ps, []Op{{K: "mkdir", P: "/w", M: 0o755}, {K: "stat", P: "/t"}})
+				}
+				c.Progs = ps
+			} else if t < 0.2 {
+				// shared-handle template: two goroutines use the SAME open file
+				d1 := &Data{Len: 1 + r.IntN(3000), Kind: "text", Tag: 0x777b}
+				d2 := &Data{Len: 1 + r.IntN(3000), Kind: "rand", Tag: 0x777c}
+				c.Progs = [][]Op{
+					{{K: "create", P: "/t", H: SharedBase + 1}, {K: "h.write", H: SharedBase + 1, D: d1}, {K: "h.sync", H: SharedBase + 1}, {K: "h.stat", H: SharedBase + 1}},
+					{{K: "stat", P: "/t"}, {K: "h.write", H: SharedBase + 1, D: d2}, {K: "h.sync", H: SharedBase + 1}},
+				}
+				if r.IntN(2) == 0 {
+					c.Progs = append(c.Progs, []Op{{K: "mkdir", P: "/w", M: 0o755}})
+				}
+				if c.P["yield"] == 0 {
+					c.P["yield"] = 20
+				}
+			} else if t < 0.45 {
 				// conflict templates: one caller works below a directory that another
 				// caller removes or renames at the same time (check-then-act windows)
 				child := []Op{{K: "mkdir", P: "/s/x", M: 0o755}}
@@ -153,8 +188,6 @@ func init() {
 			if r.Float64() < 0.4 {
 				c.Ops = append(c.Ops, Op{K: "writefile", P: "/t", D: &Data{Len: 100, Kind: "text", Tag: 0x7777}})
 			}
-			c.P["stick"] = int64(r.IntN(100))
-			c.P["yield"] = int64([]int{0, 0, 5, 20, 50}[r.IntN(5)])
 			return c
 		},
 		Eval: evalC11,
@@ -193,12 +226,14 @@ func evalC11(t *testing.T, c *Case, st *Stats, relax Relax) *Violation {
 			hist = append(hist, histEntry{Client: len(c.Progs) + 1, Op: op, Res: res, Call: call, Ret: seq.Add(1)})
 		}
 		setup.CloseAll()
+		shared := &SharedHandles{H: map[int]afero.File{}}
 		results := make([][]histEntry, len(c.Progs))
 		var tasks []*Task
 		for ci, prog := range c.Progs {
 			ci, prog := ci, prog
 			tasks = append(tasks, s.Spawn(fmt.Sprintf("c%d", ci+1), func() {
 				ex := NewExec(stk.FS, s)
+				ex.Shared = shared
 				for _, op := range prog {
 					call := seq.Add(1)
 					res := ex.Do(op)
@@ -218,6 +253,14 @@ func evalC11(t *testing.T, c *Case, st *Stats, relax Relax) *Violation {
 		s.Join(tasks)
 		for _, r := range results {
 			hist = append(hist, r...)
+		}
+		for h := range shared.H {
+			ex := NewExec(stk.FS, s)
+			ex.Shared = shared
+			op := Op{K: "h.close", H: h}
+			call := seq.Add(1)
+			res := ex.Do(op)
+			hist = append(hist, histEntry{Client: len(c.Progs) + 2, Op: op, Res: res, Call: call, Ret: seq.Add(1)})
 		}
 		// final observation, after everything
 		call := seq.Add(1)
